@@ -28,12 +28,31 @@ EXHAUSTIVE = {"quick": False, "thorough": False}
 TECHNIQUE = ("Lean 4 theorems about an executable model of signac/sync.py (directory walk, copy/copytree, document "
              "merge under backup, clone-or-sync, schema gate, selection) + differential correspondence of the compiled "
              "model against the real sync entry points on generated project pairs, every call run twice")
-LEVEL_TEXT = "see Signac/Properties/C13.lean"
-LEVEL_NOTE = ""
+LEVEL_TEXT = ('Proved in Lean (Signac/Properties/C13.lean) for an executable model of signac/sync.py, for all pairs of project trees, '
+    'all option values, arbitrary strategy / exclusion functions: the source project is returned unchanged by every call '
+    '(sync_src_frame) and the destination after the call is exactly the logged put/del steps replayed on the destination '
+    'before it (sync_steps_on_dst); after a successful real project sync every selected source job exists in the destination '
+    "as a clone or as the result of a successful sync_jobs, with the source's state point bytes (sync_job_result, "
+    'sync_sp_superset); every source file the walk has to deliver (absent in the destination, reached through common '
+    'directories — below the top level only when recursive —, not excluded) is present byte-identically, in existing '
+    '(sync_files_present) and cloned jobs (clone_files_present); paths, jobs and document keys (at any depth, ByKey; top level, '
+    'update) that only the destination has are untouched, also by failed runs (sync_dst_only_*). The model is compared with the '
+    'real Project.sync / Job.sync / sync_projects / sync_jobs on every generated project pair, every call made twice; the direct '
+    'oracle states the postcondition on byte snapshots.')
+LEVEL_NOTE = ("Idempotence ('repeating the same sync changes nothing') is proved for the recursive file walk (sync_idempotent_files) and "
+    'for job syncs without document merge (sync_idempotent_partial); the rest (ByKey / update merges, clone-then-sync at the '
+    'project level) is NOT proved: kept as the Prop sync_idempotent_full and checked only empirically (every real call is '
+    'repeated; model compared with the second call). The model has the behaviour '
+    'of the code WITH the proposed fixes F-13, F-14a, F-15a-g (proposed/*.md); on the unchanged tree the cases in those classes '
+    'are carved out of the correspondence (known_class) and judged by the oracle alone. Hypotheses: directory listings have '
+    'distinct names (WFEntries); jobs with equal id have equal state point bytes (C01/C02). Trusted: Lean kernel + axioms '
+    'propext/Classical.choice/Quot.sound; the harness (generator, snapshots, oracle); filecmp / shutil / re / synced_collections '
+    'are modelled (listing order, signature rule, copy = same bytes + fresh mtime, re.match as a table), not verified. Not '
+    'modelled: symlinks, preserve_* flags, follow_symlinks=False, the Ask strategy.')
 
 
 def generate(tier, rng):
-    n = 4000 if tier == "quick" else 40000
+    n = 4000 if tier == "quick" else 60000
     for _ in range(n):
         yield sc.gen_case(rng, "c13")
 
